@@ -384,6 +384,51 @@ pub fn check_step(cx: &StepCtx) -> Vec<Violation> {
         }
     }
 
+    // ---------------------------------------------------------------- C15: accrual proportional, independent
+    if cx.envelope {
+        let owed = |s: &Snap, a: Id| -> u128 {
+            let (b, i, p) = s.holders.get(&a).cloned().unwrap_or((0, 0, 0));
+            (s.rw.0 - i.min(s.rw.0)) * b + p
+        };
+        for a in CAST.iter() {
+            // the query reports exactly the whole units of (global − index)·balance + pending
+            if let Some(Some(q)) = post.accrued.get(a) {
+                if *q != owed(post, *a) / D {
+                    out.push(v("C15", "accrued-query-ne-formula", format!("{}: AccruedRewards({}) = {} but (G−i)·b+p = {}", kind, a, q, owed(post, *a))));
+                }
+            }
+        }
+        let is_claim = matches!(op, Op::Tx { call: Call::Reward(RewMsg::Claim(_)), .. });
+        let g_moved = post.rw.0 != pre.rw.0;
+        if !is_claim && !g_moved && !is_env(op) {
+            for a in CAST.iter() {
+                if owed(pre, *a) != owed(post, *a) {
+                    out.push(v("C15", "dues-moved-by-balance-change", format!("{}: what {} is owed changed {} → {} without an index update or claim", kind, a, owed(pre, *a), owed(post, *a))));
+                    break;
+                }
+            }
+        }
+        if g_moved {
+            let k = post.rw.0 - pre.rw.0.min(post.rw.0);
+            for a in CAST.iter() {
+                let (b, _, _) = pre.holders.get(a).cloned().unwrap_or((0, 0, 0));
+                if owed(post, *a) != owed(pre, *a) + b * k {
+                    out.push(v("C15", "accrual-not-proportional", format!("{}: holder {} with balance {} accrued {} for an index step {}", kind, a, b, owed(post, *a) as i128 - owed(pre, *a) as i128, k)));
+                    break;
+                }
+            }
+        }
+        if is_claim && ok {
+            if let Op::Tx { sender, .. } = op {
+                for a in CAST.iter() {
+                    if a != sender && owed(pre, *a) != owed(post, *a) {
+                        out.push(v("C15", "claim-changed-foreign-dues", format!("claim by {} changed what {} is owed", sender, a)));
+                    }
+                }
+            }
+        }
+    }
+
     // ---------------------------------------------------------------- C20: parameter ranges
     if post.fee > D {
         out.push(v("C20", "fee-above-one", format!("{}: peg_recovery_fee {}", kind, post.fee)));
